@@ -389,13 +389,14 @@ fn run_cfg(cfg: &Cfg, bin: &std::path::Path, rng: &mut Rng, cov: &mut Cov) -> Re
     let d = eff.snapshot_days;
     let ages: Vec<i64> = vec![d.max(1) - 1, d, d * 3 / 2 + 1];
     let ages: Vec<i64> = { let mut a = ages; a.dedup(); a };
-    for (ai, age) in ages.into_iter().enumerate() {
+    let ages: Vec<(i64, i64)> = ages.into_iter().flat_map(|a| [(a, 3600i64), (a, 82_800)]).collect();
+    for (age, past) in ages {
         // fresh snapshot at the latest version so that versions-since stays 0
         {
             let st = SqliteStorage::new(&data).map_err(|e| format!("open data dir: {e:#}"))?;
             let mut t = st.txn(client).map_err(|e| format!("{e:#}"))?;
             // one hour / twenty-three hours past the whole number of days
-            let ts = chrono::Utc::now() - chrono::Duration::seconds(age * 86400 + if ai % 2 == 0 { 3600 } else { 82_800 });
+            let ts = chrono::Utc::now() - chrono::Duration::seconds(age * 86400 + past);
             t.set_snapshot(Snapshot { version_id: parent, timestamp: ts, versions_since: 0 }, b"aged".to_vec()).map_err(|e| format!("{e:#}"))?;
             t.commit().map_err(|e| format!("{e:#}"))?;
         }
